@@ -37,8 +37,8 @@ theorem hiPartOf_val_le {p : Option Str} {r : Strtoul} (h : hiPartOf p = some r)
       simp only [hiPartOf, Option.some.injEq] at h
       rw [← h]; exact strtoul_val_le _
 
-theorem rangeCheck_ok {e w lo hi e' : Nat} {c : Bool} {r : SR} (h : rangeCheck e w lo hi c = .ok r e') :
-    r = ⟨lo, hi, w⟩ ∧ e' = e ∧ lo ≤ hi ∧ rangeTooBig lo hi = false := by
+theorem rangeCheck_ok {cfg : Cfg} {e w lo hi e' : Nat} {r : SR} (h : rangeCheck cfg e w lo hi = .ok r e') :
+    r = ⟨lo, hi, w⟩ ∧ e' = e ∧ lo ≤ hi ∧ rangeTooBig lo hi = false ∧ ulongMaxRejected cfg hi = false := by
   unfold rangeCheck at h
   split at h
   · simp at h
@@ -47,13 +47,15 @@ theorem rangeCheck_ok {e w lo hi e' : Nat} {c : Bool} {r : SR} (h : rangeCheck e
     · rename_i h1 h2
       simp only [PR.ok.injEq] at h
       simp only [Bool.or_eq_true, not_or, Bool.not_eq_true] at h2
-      exact ⟨h.1.symm, h.2.symm, by omega, h2.1.1⟩
+      exact ⟨h.1.symm, h.2.symm, by omega, h2.1, h2.2⟩
 
 /-- what an accepted range item looks like, whatever its text was: bounds fit `unsigned long`,
-    are ordered, the C size test passed, and the width is the length of the text before `-` -/
-theorem parseSingleRange_ok {e e' : Nat} {s : Str} {r : SR} (h : parseSingleRange e s = .ok r e') :
+    are ordered, the C size test passed, the width is the length of the text before `-`, and in
+    the repaired variant the high bound is not 2^64-1 -/
+theorem parseSingleRange_ok {cfg : Cfg} {e e' : Nat} {s : Str} {r : SR}
+    (h : parseSingleRange cfg e s = .ok r e') :
     r.lo ≤ r.hi ∧ r.hi ≤ ULONG_MAX ∧ rangeTooBig r.lo r.hi = false ∧
-      r.width = (cutAt '-' s).1.length := by
+      r.width = (cutAt '-' s).1.length ∧ ulongMaxRejected cfg r.hi = false := by
   unfold parseSingleRange at h
   generalize cutAt '-' s = c at h ⊢
   obtain ⟨str, p⟩ := c
@@ -68,14 +70,14 @@ theorem parseSingleRange_ok {e e' : Nat} {s : Str} {r : SR} (h : parseSingleRang
         · rename_i r' hp
           split at h
           · simp at h
-          · obtain ⟨hr, _, hle, hbig⟩ := rangeCheck_ok h
+          · obtain ⟨hr, _, hle, hbig, hmx⟩ := rangeCheck_ok h
             subst hr
-            exact ⟨hle, hiPartOf_val_le hp, hbig, rfl⟩
+            exact ⟨hle, hiPartOf_val_le hp, hbig, rfl, hmx⟩
         · split at h
           · simp at h
-          · obtain ⟨hr, _, hle, hbig⟩ := rangeCheck_ok h
+          · obtain ⟨hr, _, hle, hbig, hmx⟩ := rangeCheck_ok h
             subst hr
-            exact ⟨hle, strtoul_val_le _, hbig, rfl⟩
+            exact ⟨hle, strtoul_val_le _, hbig, rfl, hmx⟩
 
 /-- the size test in exact arithmetic: either the range is within the limit, or it is the one
     range whose size wraps to 0 -/
